@@ -210,6 +210,8 @@ func writerFaults(c *mon.Ctx, idx int64, r *rand.Rand) {
 	}
 	pk := gen.RandomPacket(r)
 	ops = append(ops, wop{kind: "packet", pkt: pk})
+	// a short (PSI style) payload the writer pads with 0xFF up to the packet size
+	ops = append(ops, wop{kind: "packet", pkt: &astits.Packet{Header: astits.PacketHeader{PID: 0x1501, HasPayload: true, PayloadUnitStartIndicator: true, ContinuityCounter: 3}, Payload: gen.Bytes(r, 1+r.IntN(170))}})
 	ops = append(ops, wop{kind: "tables"})
 	run := func(tap *mon.WTap) (ns []int, errs []error, acc []int, pan string) {
 		m := astits.NewMuxer(context.Background(), tap, astits.MuxerOptTablesRetransmitPeriod(3))
@@ -278,6 +280,8 @@ func writerFaults(c *mon.Ctx, idx int64, r *rand.Rand) {
 			}
 		case afc&2 != 0 && off <= 4+int(pkt[4]):
 			region = "adaptation-field"
+		case ops[rec.Call].kind == "packet" && ops[rec.Call].pkt != nil && off >= 188-padLen(ops[rec.Call].pkt):
+			region = "trailing-padding"
 		}
 		for mode := 0; mode < 4; mode++ {
 			tap := mon.NewWTap()
@@ -321,4 +325,16 @@ func writerFaults(c *mon.Ctx, idx int64, r *rand.Rand) {
 	if idx < 2 {
 		c.Sample("writer", map[string]any{"ops": len(ops), "write_calls_fault_free": NW, "modes": "permanent/one-shot x reject/partial"})
 	}
+}
+
+// padLen is the number of 0xFF bytes the writer appends after the payload of a WritePacket packet.
+func padLen(p *astits.Packet) int {
+	n := 4 + len(p.Payload)
+	if p.Header.HasAdaptationField && p.AdaptationField != nil {
+		n += 1 + gen.AFBodySize(p.AdaptationField)
+	}
+	if n >= 188 {
+		return 0
+	}
+	return 188 - n
 }
